@@ -1,6 +1,8 @@
 """C14 -- ops.split and ops.group partition the rows (Props/C14.v)."""
+import collections
 import itertools
 import json
+import math
 import random as _random
 import warnings
 
@@ -21,6 +23,44 @@ INCLUDE_PENDING_FINDINGS = False
 
 class HarnessInputError(Exception):
     """the input description itself is malformed: a defect of the generator, never an observation"""
+
+
+# forms of the `by` argument of group that the UNCHANGED implementation accepts (`for col in by` over any iterable of
+# columns; None; one column).  A dict keys view / set of columns is not among them: columns are unhashable, the
+# caller cannot even build it.  One-shot iterables (gen / map / iter / reversed) can be walked only once.
+BY_FORMS_MULTI = ('list', 'tuple', 'gen', 'map', 'iter', 'dictvalues', 'deque', 'reversed')
+BY_FORMS = BY_FORMS_MULTI + ('single', 'none')
+
+
+def make_by(dm, keys, form):
+    """the `by` argument of ops.group for the key columns `keys` in the given form (same columns, same order)"""
+    if form == 'none':
+        return None
+    if form == 'single' and len(keys) == 1:
+        return dm[keys[0]]
+    if form == 'tuple':
+        return tuple(dm[k] for k in keys)
+    if form == 'gen':
+        return (dm[k] for k in keys)
+    if form == 'map':
+        return map(dm.__getitem__, list(keys))
+    if form == 'iter':
+        return iter([dm[k] for k in keys])
+    if form == 'dictvalues':
+        # positions as dict keys: the same column may occur twice
+        return {i: dm[k] for i, k in enumerate(keys)}.values()
+    if form == 'deque':
+        return collections.deque(dm[k] for k in keys)
+    if form == 'reversed':
+        return reversed([dm[k] for k in keys][::-1])
+    return [dm[k] for k in keys]
+
+
+def split_args(dm, keys, form):
+    """the column arguments of ops.split: positional, so an iterable can only be handed over unpacked"""
+    if form in ('gen', 'map', 'iter', 'reversed'):
+        return make_by(dm, keys, form)
+    return [dm[k] for k in keys]
 
 
 def coltype(kind):
@@ -223,7 +263,16 @@ class C14:
             'offset slice, applied twice, after a probe), sort by a rank / key column whose minimum and maximum are '
             'already in place, shuffles filtered for that shape, rotations, reversal, swapped ends, gapped lists '
             'with and without last-first = length-1; key combinations whose Python hashes coincide (-1/-2, '
-            '0/2**61-1, inf/314159). '
+            '0/2**61-1, inf/314159); '
+            'nearly-equal DISTINCT key values (FloatColumn, MixedColumn: adjacent doubles, 0.1+0.2 vs 0.3, 1e16 vs '
+            '1e16+2, relative distances 1e-16..5e-6, denormals / 1e-9 vs 0.0 and -0.0; IntColumn / MixedColumn '
+            'integers beyond 2**53 sharing their nearest double) drawn cluster-wise so that they meet in one column, '
+            'as the only, first or second key column of split, split with values (references: the occurring values '
+            'and their neighbours a few ulps / 1e-12 / 1e-7 away) and group; '
+            'the by-argument of group in every form the unchanged code accepts (list, tuple, generator expression, '
+            'map object, iterator, reversed, dict values view, deque, one column, None; a by-column given twice), '
+            'split arguments unpacked from one-shot iterables -- half of all group cases, and all forms on fixed '
+            'tables with 0-3 by-columns (a dict keys view / set of columns cannot be built: columns are unhashable). '
             'Every implementation call of a case (construction, derivation, history, reading the source, the '
             'call, consuming the generator, reading every part / group, the after-snapshot) runs inside one '
             'guard: an exception is an observation of that case (pyfail naming the step), judged against the '
@@ -272,6 +321,8 @@ class C14:
         for k in inp['keys']:
             if k not in names:
                 raise HarnessInputError('key column %r is not a column of the input' % (k,))
+        if inp.get('by_form') is not None and inp['by_form'] not in BY_FORMS:
+            raise HarnessInputError('unknown form of the column arguments %r' % (inp.get('by_form'),))
         if inp['op'] in ('split', 'splitv', 'bad_split') and not inp['keys']:
             raise HarnessInputError('split needs a key column')
         for st in inp.get('order', []):
@@ -349,7 +400,7 @@ class C14:
         observed = None
         if op == 'split':
             st['stage'] = 'split (call and consuming the generator)'
-            res = list(ops.split(*[dm[k] for k in inp['keys']]))
+            res = list(ops.split(*split_args(dm, inp['keys'], inp.get('by_form'))))
             st['stage'] = 'reading the parts of split'
             obs = []
             for item in res:
@@ -383,12 +434,9 @@ class C14:
             observed = [view_json(pv) for pv in obs]
         elif op == 'group':
             st['stage'] = 'group (the call)'
-            by = [dm[k] for k in inp['keys']]
-            if inp.get('by_form') == 'none':
-                by = None
-            elif inp.get('by_form') == 'single' and len(by) == 1:
-                by = by[0]
-            cm = ops.group(dm, by)
+            if inp.get('by_form'):
+                tags.append('by:' + inp['by_form'])
+            cm = ops.group(dm, make_by(dm, inp['keys'], inp.get('by_form')))
             st['stage'] = 'reading the grouped table'
             if not isinstance(cm, DataMatrix):
                 problems.append('group returned %r, expected a DataMatrix' % (cm,))
@@ -458,9 +506,35 @@ class C14:
         'mhetf': ['a', 1, 2.5, None, 'None', -0.5],
         'float': [0.0, -0.0, 1.0, 2.0, 1.5, NAN, INF, -INF, 3.0, 12.0],
         'int': [0, 1, 2, 3, -1, 12, 2 ** 40, 21],
+        # ordinary values next to the clusters of NEAR (filled in below)
+        'fnear': [1.0, 2.5, 0.0, -1.0, NAN, INF, 0.5, 12.0],
+        'mnear': [1, 2.5, 0, -1, 'a', None, 0.5, 12],
+        'inear': [0, 1, -1, 2 ** 40],
     }
     FLAVOUR_KIND = {'text': 'KMixed', 'mnum': 'KMixed', 'mint': 'KMixed', 'mhet': 'KMixed', 'mhetf': 'KMixed',
-                    'float': 'KFloat', 'int': 'KInt'}
+                    'float': 'KFloat', 'int': 'KInt', 'fnear': 'KFloat', 'mnear': 'KMixed', 'inear': 'KInt'}
+    # clusters of DISTINCT values that are nearly equal: adjacent doubles, a few ulps apart, relative distance
+    # 1e-12 / 1e-10 / 1e-7 / 5e-6, absolute distance below 1e-8 around zero, integers beyond 2**53 that share
+    # their nearest double.  Every value of a cluster is a key of its own.
+    NEAR = {
+        'fnear': [
+            [0.1 + 0.2, 0.3], [-0.3, -(0.1 + 0.2)],
+            [1.0, math.nextafter(1.0, 2.0), math.nextafter(1.0, 0.0)],
+            [1e16, 1e16 + 2], [float(2 ** 53), float(2 ** 53) + 2.0],
+            [0.0, -0.0, 5e-324, -5e-324], [1e-310, 1.0000001e-310], [1e-9, 2e-9, 0.0],
+            [2.5, 2.5 * (1 + 2.0 ** -40), 2.5 * (1 + 2.0 ** -33)],
+            [1e300, math.nextafter(1e300, INF)], [-1e-5, math.nextafter(-1e-5, 0.0)],
+            [123456.789, 123456.789 * (1 + 1e-7)], [100.0, 100.0005],
+            [1.7976931348623157e308, math.nextafter(1.7976931348623157e308, 0.0), INF],
+        ],
+        'mnear': [
+            [0.1 + 0.2, 0.3], [1, math.nextafter(1.0, 2.0), math.nextafter(1.0, 0.0)],
+            [10 ** 16, 10 ** 16 + 1, 10 ** 16 + 2], [2 ** 53, 2 ** 53 + 1],
+            [0, 5e-324], [2.5, 2.5 * (1 + 2.0 ** -40)], [-0.3, -(0.1 + 0.2)], [100.5, 100.5005],
+        ],
+        'inear': [[2 ** 53, 2 ** 53 + 1, 2 ** 53 + 2], [-2 ** 53, -2 ** 53 - 1], [2 ** 62, 2 ** 62 + 1],
+                  [10 ** 16, 10 ** 16 + 1]],
+    }
     # rows of key combinations that coincide under concatenation / addition
     PRESETS = [
         (['text', 'text'], [('a', 'bc'), ('ab', 'c'), ('abc', ''), ('', 'abc')]),
@@ -477,6 +551,13 @@ class C14:
         (['mint', 'int'], [(0, 1), (2 ** 61 - 1, 1), (-1, 1), (-2, 1), (0, 2)]),
         (['float', 'int'], [(INF, 0), (314159.0, 0), (-INF, 0), (-314159.0, 0), (-1.0, 0), (-2.0, 0)]),
         (['mnum'], [(-1,), (-2,), (INF,), (314159,), (0,), (2 ** 61 - 1,)]),
+        # distinct values that are nearly equal (see NEAR), alone, as first and as second key column
+        (['fnear'], [(0.1 + 0.2,), (0.3,), (1.0,), (math.nextafter(1.0, 2.0),), (NAN,), (2.5,)]),
+        (['fnear', 'text'], [(0.3, 'a'), (0.1 + 0.2, 'a'), (0.3, 'b'), (0.1 + 0.2, 'b'), (1e16, 'a'), (1e16 + 2, 'a')]),
+        (['int', 'fnear'], [(1, 0.3), (1, 0.1 + 0.2), (2, 0.3), (2, 0.1 + 0.2), (1, NAN), (2, 5e-324), (2, 0.0)]),
+        (['mnear', 'fnear'], [(0.3, 1.0), (0.1 + 0.2, 1.0), (0.3, math.nextafter(1.0, 2.0)), (10 ** 16, 0.0),
+                              (10 ** 16 + 1, 0.0), (10 ** 16, -5e-324)]),
+        (['inear'], [(2 ** 53,), (2 ** 53 + 1,), (2 ** 53 + 2,), (1,)]),
     ]
 
     def _payload(self, rng, n, numeric):
@@ -506,8 +587,34 @@ class C14:
             steps.append({'t': 'sort', 'by': rng.choice(keys)})
         return steps, n
 
-    def _table(self, rng, maxn, nkeys_choices):
-        """-> (cols, keys) base table"""
+    ALL_FLAVOURS = ['text', 'text', 'mint', 'mnum', 'mhet', 'mhet', 'mhetf', 'float', 'float', 'int']
+
+    def _pool(self, rng, f):
+        """the alphabet of one key column: 1-5 values of the flavour's pool; for the nearly-equal flavours one or two
+        whole clusters (so that nearly-equal values do meet in the column) plus 0-2 ordinary values"""
+        if f not in self.NEAR:
+            return rng.sample(self.POOLS[f], rng.randint(1, min(5, len(self.POOLS[f]))))
+        pool = []
+        for cl in rng.sample(self.NEAR[f], rng.choice([1, 1, 2])):
+            pool.extend(cl if rng.random() < 0.7 else rng.sample(cl, 2))
+        pool.extend(rng.sample(self.POOLS[f], rng.choice([0, 1, 2])))
+        return pool
+
+    def _table(self, rng, maxn, nkeys_choices, near=False):
+        """-> (cols, keys) base table; near: at least one key column holds nearly-equal distinct values"""
+        if near:
+            nk = max(1, rng.choice(nkeys_choices))
+            n = rng.randint(2, maxn) if rng.random() < 0.9 else rng.randint(0, maxn)
+            flav = [rng.choice(['fnear', 'fnear', 'fnear', 'mnear', 'inear'] if rng.random() < 0.6 else self.ALL_FLAVOURS)
+                    for _ in range(nk)]
+            if not any(f in self.NEAR for f in flav):
+                flav[rng.randrange(nk)] = rng.choice(['fnear', 'fnear', 'mnear'])
+            keycols = []
+            for j, f in enumerate(flav):
+                pool = self._pool(rng, f)
+                keycols.append({'name': 'k%d' % j, 'kind': self.FLAVOUR_KIND[f],
+                                'cells': [pyobs.enc(rng.choice(pool)) for _ in range(n)]})
+            return keycols, [c['name'] for c in keycols], n
         if rng.random() < 0.3:
             flavours, combos = rng.choice(self.PRESETS)
             n = rng.randint(0, maxn)
@@ -522,8 +629,8 @@ class C14:
             n = rng.randint(0, maxn)
             keycols = []
             for j in range(nk):
-                f = rng.choice(['text', 'text', 'mint', 'mnum', 'mhet', 'mhet', 'mhetf', 'float', 'float', 'int'])
-                pool = rng.sample(self.POOLS[f], rng.randint(1, min(5, len(self.POOLS[f]))))
+                f = rng.choice(self.ALL_FLAVOURS)
+                pool = self._pool(rng, f)
                 keycols.append({'name': 'k%d' % j, 'kind': self.FLAVOUR_KIND[f],
                                 'cells': [pyobs.enc(rng.choice(pool)) for _ in range(n)]})
         return keycols, [c['name'] for c in keycols], n
@@ -538,6 +645,12 @@ class C14:
             extra = [7, 1, 2.0, NAN, INF, -INF, 0, -0.0, 1.5]
         else:
             extra = [7, 1, 2.0, 'zz', None, 0, -1]
+        # references next to a float that occurs: the adjacent doubles, a few ulps / 1e-12 / 1e-7 relative away
+        floats = [x for x in present if type(x) is float and x == x and abs(x) != INF]
+        if kind in ('KMixed', 'KFloat') and floats:
+            x = rng.choice(floats)
+            extra = extra + [math.nextafter(x, INF), math.nextafter(x, -INF), x * (1 + 2.0 ** -50), x * (1 + 1e-12),
+                             x * (1 - 1e-7), 0.3, 0.1 + 0.2]
         k = rng.randint(1, 5)
         vals = []
         for _ in range(k):
@@ -550,25 +663,34 @@ class C14:
             pass
         return [pyobs.enc(v) for v in vals]
 
-    def _case(self, rng, op, maxn):
+    def _case(self, rng, op, maxn, near=False):
         nk = {'split': [1, 1, 2, 2, 3], 'splitv': [1], 'group': [0, 1, 1, 2, 2, 3]}[op]
-        keycols, keys, n = self._table(rng, maxn, nk)
+        keycols, keys, n = self._table(rng, maxn, nk, near)
         if op == 'splitv':
             keycols, keys = keycols[:1], keys[:1]
         cols = keycols + self._payload(rng, n, numeric=(op == 'group'))
         mode = rng.choice(['none', 'none', 'select', 'shuffle', 'sort', 'select+shuffle', 'select+sort'])
         steps, _n = self._order(rng, n, keys, mode)
-        inp = {'op': op, 'cols': cols, 'keys': keys, 'order': steps, 'tags': ['random']}
+        inp = {'op': op, 'cols': cols, 'keys': keys, 'order': steps, 'tags': ['near' if near else 'random']}
         if op == 'splitv':
             inp['values'] = self._values(rng, keycols[0])
         if op == 'group':
-            if not keys:
-                inp['by_form'] = rng.choice(['none', 'list'])
-            elif len(keys) == 1:
-                inp['by_form'] = rng.choice(['single', 'list'])
-            else:
-                inp['by_form'] = 'list'
+            inp['by_form'] = self._by_form(rng, len(keys))
+        if op == 'split' and rng.random() < 0.15:
+            inp['by_form'] = rng.choice(['gen', 'map', 'iter', 'reversed'])      # split(*iterable)
         return inp
+
+    @staticmethod
+    def _by_form(rng, nkeys):
+        """how the by-columns are handed to group: half of the cases a list (or the single column / None where that
+        is possible), the other half any other iterable the unchanged code accepts"""
+        if rng.random() < 0.5:
+            return rng.choice(BY_FORMS_MULTI[1:])
+        if nkeys == 0:
+            return rng.choice(['none', 'list'])
+        if nkeys == 1:
+            return rng.choice(['single', 'list'])
+        return 'list'
 
     # ------------------------------------------------------------------ row-id layouts (derivation routes)
     # index lists whose result has its smallest row id first and its largest last with the interior permuted
@@ -715,7 +837,7 @@ class C14:
         if op == 'splitv':
             inp['values'] = self._values(rng, keycols[0])
         if op == 'group':
-            inp['by_form'] = 'list' if len(keycols) > 1 else rng.choice(['single', 'list'])
+            inp['by_form'] = self._by_form(rng, len(keycols))
         return inp
 
     def _pending_cases(self, rng):
@@ -743,7 +865,7 @@ class C14:
 
     def _hist_case(self, rng, op, maxn):
         """split / unique / count first, then mutate the same table in place, then the operation"""
-        inp = self._case(rng, op, maxn)
+        inp = self._case(rng, op, maxn, near=rng.random() < 0.15)
         if op == 'group':       # grouped columns must stay numeric after dm.length / assignments
             inp['cols'] = [c for c in inp['cols'] if c['name'] in inp['keys'] or c['name'] == 'uid' or c['kind'] != 'KMixed']
         inp['tags'] = ['history']
@@ -753,7 +875,7 @@ class C14:
                 n = len(st['keep'])
         keys = inp['keys']
         targets = [c for c in inp['cols'] if c['name'] != 'uid']
-        extra = {'KMixed': ['zz', 5, None, 'a', ''], 'KFloat': [1.0, NAN, 7.5, 0.0], 'KInt': [1, 9, 0]}
+        extra = {'KMixed': ['zz', 5, None, 'a', ''], 'KFloat': [1.0, NAN, 7.5, 0.0, 0.3, 0.1 + 0.2], 'KInt': [1, 9, 0]}
 
         def value_for(col):
             pool = [pyobs.dec(x) for x in col['cells']] + extra[col['kind']]
@@ -836,11 +958,43 @@ class C14:
             cases.append(self.rerun({'op': 'split', 'cols': cols, 'keys': keys, 'order': [], 'tags': ['preset']}))
             cases.append(self.rerun({'op': 'group', 'cols': cols, 'keys': keys, 'order': [], 'by_form': 'list',
                                      'tags': ['preset']}))
+            # the parts for every occurring value of the first column, last first, then its first value again
+            vals = []
+            for x in reversed(keycols[0]['cells']):
+                if x not in vals:
+                    vals.append(x)
+            cases.append(self.rerun({'op': 'splitv', 'cols': cols, 'keys': keys[:1], 'order': [],
+                                     'values': vals + vals[-1:], 'tags': ['preset']}))
+        # every accepted form of the `by` argument (and of unpacked split arguments) on fixed tables: 0, 1, 2 and 3
+        # by-columns, one of them twice
+        fcols = [{'name': 'a', 'kind': 'KMixed', 'cells': [pyobs.enc(v) for v in ['x', 'x', 'y', 'y', 'x', 'ab', 'a']]},
+                 {'name': 'b', 'kind': 'KMixed', 'cells': [pyobs.enc(v) for v in [1, 2, 1, 1, 1, 'c', 'bc']]},
+                 {'name': 'f', 'kind': 'KFloat', 'cells': [pyobs.enc(v) for v in [0.5, NAN, 0.5, 0.5, NAN, 0.5, 2.0]]},
+                 {'name': 'p', 'kind': 'KFloat', 'cells': [pyobs.enc(v) for v in [1.5, 2.5, 3.5, 4.5, 5.5, 6.5, 7.5]]},
+                 {'name': 'uid', 'kind': 'KInt', 'cells': [pyobs.enc(70 + i) for i in range(7)]}]
+        for keys in ([], ['a'], ['f'], ['a', 'b'], ['b', 'f', 'a'], ['a', 'a'], ['f', 'b', 'f']):
+            for form in BY_FORMS:
+                if (form == 'single' and len(keys) != 1) or (form == 'none' and keys):
+                    continue
+                # grouped (non-by) columns must hold numbers: the text columns only where they are by-columns
+                gcols = [c for c in fcols if c['kind'] != 'KMixed' or c['name'] in keys]
+                cases.append(self.rerun({'op': 'group', 'cols': gcols, 'keys': keys, 'order': [], 'by_form': form,
+                                         'tags': ['by-forms']}))
+                if keys and form in ('list', 'gen', 'map', 'iter', 'reversed'):
+                    scols = [c for c in fcols if c['name'] != 'p'] + [
+                        {'name': 'lab', 'kind': 'KMixed', 'cells': [pyobs.enc('r%d' % i) for i in range(7)]}]
+                    cases.append(self.rerun({'op': 'split', 'cols': scols, 'keys': keys, 'order': [],
+                                             'by_form': form, 'tags': ['by-forms']}))
         reps = int((600 if quick else 5000) * scale)
         maxn = 12 if quick else 16
         for _ in range(reps):
             for op in ('split', 'splitv', 'group'):
                 cases.append(self.rerun(self._case(rng, op, maxn)))
+        # distinct key values that are nearly equal (FloatColumn / MixedColumn; integers beyond 2**53): every
+        # operation, 1-3 key columns, every derivation mode
+        for _ in range(int((80 if quick else 700) * scale)):
+            for op in ('split', 'splitv', 'group'):
+                cases.append(self.rerun(self._case(rng, op, maxn, near=True)))
         # row-id layouts: every derivation route, every operation
         for _ in range(max(1, int((8 if quick else 60) * scale))):
             for route in self.ROUTES:
@@ -924,6 +1078,11 @@ class C14:
                 c = dict(inp)
                 c['keys'] = [x for x in inp['keys'] if x != k]
                 yield c
+        # the column arguments as a plain list
+        if inp.get('by_form') in BY_FORMS_MULTI[1:]:
+            c = dict(inp)
+            c['by_form'] = 'list'
+            yield c
         # drop an explicit value
         if inp.get('values') and len(inp['values']) > 1:
             for i in range(len(inp['values'])):
@@ -934,7 +1093,9 @@ class C14:
     def key(self, case):
         inp = case['input']
         hist = ''.join(' ' + (h['t'] if h['t'] != 'probe' else 'probe-' + h['what']) for h in inp.get('hist', []))
-        return '%s%s keys=%s rows=%d' % (inp['op'], (' after' + hist) if hist else '', ','.join(
+        form = inp.get('by_form')
+        form = '[%s]' % form if form in BY_FORMS_MULTI[1:] else ''     # the list / one column / None: as before
+        return '%s%s%s keys=%s rows=%d' % (inp['op'], form, (' after' + hist) if hist else '', ','.join(
             '%s:%s' % (c['kind'], json.dumps([x.get('v') for x in c['cells']], separators=(',', ':')))
             for c in inp['cols'] if c['name'] in inp['keys']), len(inp['cols'][0]['cells']) if inp['cols'] else 0)
 
